@@ -45,13 +45,15 @@ def handleLIndex (_c : Ctx) (cmd : List Bytes) : Prog Res :=
         else .ret (.ok (bulkStr (l.getD i.toNat [])))
   | _ => .ret (.err wrongArgs)
 
-/-- index arithmetic of handleLRange :98-:129 -/
+/-- index arithmetic of handleLRange :98-:131. The bounds check of `list[i]` is kept as the `panic` branch;
+    `lrangePure_eq` (Lemmas.ListLemmas) shows it is unreachable. -/
 def lrangePure (l : List Bytes) (start end_ : Int) : Outcome Res :=
   let len : Int := l.length
   let start := if start < 0 then len + start else start
-  let end_ := if end_ < 0 then len - end_ else end_
-  let end_ := if end_ > len then len - 1 else end_
-  if start > end_ || start > len then .done (.ok (b "*0\r\n"))
+  let start := if start < 0 then 0 else start
+  let end_ := if end_ < 0 then len + end_ else end_
+  let end_ := if end_ ≥ len then len - 1 else end_
+  if start > end_ || start ≥ len then .done (.ok (b "*0\r\n"))
   else if start < 0 || end_ ≥ len then .panic "index out of range"
   else
     let xs := (l.drop start.toNat).take (end_ - start + 1).toNat
@@ -75,7 +77,7 @@ def handleLRange (_c : Ctx) (cmd : List Bytes) : Prog Res :=
         | some e => Prog.ofOutcome (lrangePure l s e)
   | _ => .ret (.err wrongArgs)
 
-/-- :132 handleLSet -/
+/-- :136 handleLSet -/
 def handleLSet (_c : Ctx) (cmd : List Bytes) : Prog Res :=
   match cmd with
   | [_, key, idx, v] =>
@@ -93,7 +95,8 @@ def handleLSet (_c : Ctx) (cmd : List Bytes) : Prog Res :=
         else setOrErr [(key, .list (l.set i.toNat v))] (.ret (.ok okReply))
   | _ => .ret (.err wrongArgs)
 
-/-- what handleLTrim :197-:222 does with the list: delete the key, store a sub-slice, or panic -/
+/-- what handleLTrim :201-:230 does with the list: delete the key, store a sub-slice, or panic (the bounds
+    check of `list[start:end]`; `ltrimPure_eq` shows it is unreachable) -/
 inductive TrimAct where
   | delete
   | store (xs : List Bytes)
@@ -103,13 +106,14 @@ def ltrimPure (l : List Bytes) (start end_ : Int) : TrimAct :=
   let len : Int := l.length
   let start := if start < 0 then len + start else start
   let end_ := if end_ < 0 then len + end_ else end_
+  let start := if start < 0 then 0 else start
   if start > end_ || start > len - 1 then .delete else
   let end_ := if end_ > len then len else end_
   let end_ := if end_ ≤ len - 1 then end_ + 1 else end_
   if start < 0 || end_ < start || end_ > len then .panic
   else .store ((l.drop start.toNat).take (end_ - start).toNat)
 
-/-- :171 handleLTrim -/
+/-- :175 handleLTrim -/
 def handleLTrim (_c : Ctx) (cmd : List Bytes) : Prog Res :=
   match cmd with
   | [_, key, st, en] =>
@@ -131,28 +135,23 @@ def handleLTrim (_c : Ctx) (cmd : List Bytes) : Prog Res :=
           | .store xs => setOrErr [(key, .list xs)] (.ret (.ok okReply))
   | _ => .ret (.err wrongArgs)
 
-/-- forward scan of handleLRem :259-:275: on a match at i the element is removed and i still advances,
-    so the element that slid into position i is skipped. `budget = none` means "all". -/
+/-- forward scan of handleLRem :267-:287: on a match at i the element is removed and i is stepped back, so
+    the element that slid into position i is examined next. `budget = none` means "all" (count 0). -/
 def lremFwd : List Bytes → Bytes → Option Nat → List Bytes
   | [], _, _ => []
   | x :: r, v, budget =>
     if budget == some 0 then x :: r
-    else if x == v then
-      -- removed; the next element is skipped over unexamined
-      match r with
-      | [] => []
-      | y :: r' => y :: lremFwd r' v (budget.map (· - 1))
+    else if x == v then lremFwd r v (budget.map (· - 1))
     else x :: lremFwd r v budget
-termination_by l => l.length
 
-/-- backward scan :278-:287: no skipping -/
+/-- backward scan :290-:298 -/
 def lremBwd (l : List Bytes) (v : Bytes) (budget : Nat) : List Bytes :=
   let rec go : List Bytes → Nat → List Bytes
     | [], _ => []
     | x :: r, n => if n == 0 then x :: r else if x == v then go r (n - 1) else x :: go r n
   (go l.reverse budget).reverse
 
-/-- :229 handleLRem -/
+/-- :237 handleLRem -/
 def handleLRem (_c : Ctx) (cmd : List Bytes) : Prog Res :=
   match cmd with
   | [_, key, cnt, v] =>
@@ -171,7 +170,7 @@ def handleLRem (_c : Ctx) (cmd : List Bytes) : Prog Res :=
         setOrErr [(key, .list l')] (.ret (.ok (intReply ((l.length : Int) - l'.length))))
   | _ => .ret (.err wrongArgs)
 
-/-- :298 handleLMove -/
+/-- :310 handleLMove -/
 def handleLMove (_c : Ctx) (cmd : List Bytes) : Prog Res :=
   match cmd with
   | [_, src, dst, wf, wt] =>
@@ -187,17 +186,21 @@ def handleLMove (_c : Ctx) (cmd : List Bytes) : Prog Res :=
       .call (.getValues [src, dst]) fun (vs : List Val) =>
       match asList? (vs.getD 0 .nil), asList? (vs.getD 1 .nil) with
       | some sl, some dl =>
+        -- :338 an empty source list has no element to move
+        if sl.isEmpty then .ret (.ok nilBulk) else
         match (if wf == b "left" then sl.head? else sl.getLast?) with
-        | none => .panic "slice bounds out of range (empty source)"
+        | none => .panic "slice bounds out of range (empty source)"   -- unreachable: `sl` is not empty
         | some e =>
           let sl' := if wf == b "left" then sl.drop 1 else sl.dropLast
+          -- :344 same key: the element goes back into what is left of the list (rotation)
+          let dl := if src == dst then sl' else dl
           let dl' := if wt == b "left" then e :: dl else dl ++ [e]
           -- map literal {source: …, destination: …}: a repeated key keeps the destination value
           setOrErr [(src, .list sl'), (dst, .list dl')] (.ret (.ok okReply))
       | _, _ => .ret (.err (b "both source and destination must be lists"))
   | _ => .ret (.err wrongArgs)
 
-/-- :357 handleLPush / :396 handleRPush (LPUSH, LPUSHX, RPUSH, RPUSHX) -/
+/-- :385 handleLPush / :424 handleRPush (LPUSH, LPUSHX, RPUSH, RPUSHX) -/
 def handlePush (left : Bool) (_c : Ctx) (cmd : List Bytes) : Prog Res :=
   if cmd.length < 3 then .ret (.err wrongArgs) else
   match cmd with
@@ -219,7 +222,7 @@ def handlePush (left : Bool) (_c : Ctx) (cmd : List Bytes) : Prog Res :=
     else tail
   | _ => .ret (.err wrongArgs)
 
-/-- :434 handlePop (LPOP / RPOP) -/
+/-- :462 handlePop (LPOP / RPOP) -/
 def handlePop (_c : Ctx) (cmd : List Bytes) : Prog Res :=
   if cmd.length < 2 || cmd.length > 3 then .ret (.err wrongArgs) else
   match cmd with
